@@ -168,13 +168,13 @@ func (g *SessionManager) selectSession(msg interface{}) getty.Session {
 		for i := 0; i < maxCheckAliveRetry; i++ {
 			<-ticker.C
 			g.allSessions.Range(func(key, value interface{}) bool {
-				session = key.(getty.Session)
-				if session.IsClosed() {
-					g.releaseSession(session)
-				} else {
-					return false
+				s := key.(getty.Session)
+				if s.IsClosed() {
+					g.releaseSession(s)
+					return true
 				}
-				return true
+				session = s
+				return false
 			})
 			if session != nil {
 				return session
